@@ -1,5 +1,6 @@
 import Driver.Util
-import AslModel.Model.Dis.RT6800
+import AslModel.Model.Dis.M6800
+import AslModel.Model.Dis.A6800
 /-! Driver mode `c15_68`: one 6800 instruction per request line – the text the real dasl printed for it and the bytes the real asl
 made of that text, against the two Lean models (deco68.c ↔ code68.c) and the round-trip property itself.
 
@@ -8,10 +9,11 @@ request (blank separated):
   the `k` pairs are the symbols occurring in the statement (name as printed, value) – the inverse symbol table for the decoder and
   the symbol table for the assembler side.
 answer:
-  `dec=<eq|ne|none> enc=<eq|ne> rt=<ok|fail> bad=<0|1> thm=<ok|viol|fixed|na> len=<n> defects=<0|1> mtext=<hex> masm=<hex|none>`
+  `dec=<eq|ne|none> enc=<eq|ne> rt=<ok|fail> thm=<ok|viol|na> len=<n> mtext=<hex> masm=<hex|none>`
  * dec – (B) `M6800.decode` text against the real text; enc – (B) `A6800.assemble` of the REAL text against the real asl bytes
  * rt – (C) the property on the real tools: real asl bytes = the image bytes the instruction was decoded from
- * bad – `M6800.knownBad`; thm – what `C15_6800_roundtrip` / `C15_6800_exclusions_exact` say about this input against `rt` -/
+ * thm – what `C15_6800_roundtrip` says about this input (no input class is excluded any more) against `rt`: `viol` = the
+   theorem's conclusion does not hold on the real tools although its hypotheses do; `na` = not decoded / beyond 64K -/
 namespace Driver.C15_6800
 open AslModel.Dis AslModel.Generated
 
@@ -50,13 +52,10 @@ def handle (line : String) : String :=
           | none => 0
         let masm := A6800.assemble env a realText
         let rt := realAsm == some (op :: data)
-        let bad := M6800.knownBad op data
-        let defects := M6800.defectsPresent
         let thm :=
           if dec.isNone then "na"
-          else if !bad then (if a + len ≤ 0x10000 then (if rt then "ok" else "viol") else "na")
-          else if rt then "fixed" else "ok"
-        s!"dec={if dec.isNone then "none" else if mtext == realText then "eq" else "ne"} enc={if masm == realAsm then "eq" else "ne"} rt={if rt then "ok" else "fail"} bad={if bad then 1 else 0} thm={thm} len={len} defects={if defects then 1 else 0} mtext={hex (mtext.map (fun c => UInt8.ofNat c.toNat))} masm={match masm with | some b => natsHex b | none => "none"}"
+          else if a + len ≤ 0x10000 then (if rt then "ok" else "viol") else "na"
+        s!"dec={if dec.isNone then "none" else if mtext == realText then "eq" else "ne"} enc={if masm == realAsm then "eq" else "ne"} rt={if rt then "ok" else "fail"} thm={thm} len={len} mtext={hex (mtext.map (fun c => UInt8.ofNat c.toNat))} masm={match masm with | some b => natsHex b | none => "none"}"
       | _, _ => "error=parse2"
     | _, _, _ => "error=parse1"
   | _ => "error=parse0"
